@@ -44,9 +44,48 @@ def run(chk: Check, proj: Project) -> None:
     from . import C03
 
     chk.borrow("S7", "fills and deferred children are rendered with the loop state and variable layering of THEIR position: snapshot copy discipline and the position of the captured-variable layer (shared with C03-S6/S9)",
-               lambda sub: (C03.s6(sub, proj, w), C03.s9_forloop_copies(sub, proj, w)))
+               lambda sub: (C03.s6(sub, proj, w), C03.s9_forloop_copies(sub, proj, w), C03.s12_layer_frame(sub, proj, w)))
+    s9(chk, proj, w)
     chk.borrow("S8", "slot resolution, the isolation gate and the fill-context choice read the SAME mode (the component's registry settings) (shared with C03-S10)",
                lambda sub: C03.s10_mode_source(sub, proj, w), only=lambda o: "mode-from-registry" in o.construct)
+
+
+def s9(chk: Check, proj: Project, w) -> None:
+    chk.rule("S9", "the 'this is the dynamic component' flag (it switches the required / default / duplicate-fill checks off) comes from a marker on the CLASS, never from the registered name (the dynamic component hands its own registered name to its target); slot names keep every character that is valid in a template variable, so `is_filled.<name>` finds the key")
+    r = proj.try_func("component", "Component._render_with_id") or proj.try_func("component", "Component._render_impl")
+    m, f = r  # type: ignore[misc]
+    cc = [c for c in calls(f, "ComponentContext") if kwarg(c, "is_dynamic_component") is not None]
+    if len(cc) != 1:
+        chk.undecided("S9", "component:render:is_dynamic_component-source", m.loc(f), f"{len(cc)} ComponentContext(is_dynamic_component=...) calls")
+    else:
+        v = kwarg(cc[0], "is_dynamic_component")
+        t = norm(v)
+        by_name = any(isinstance(x, ast.Attribute) and x.attr in ("name", "registered_name") for x in ast.walk(v)) or "DYNAMIC_COMPONENT_NAME" in t
+        by_class = "_is_dynamic_component" in t or "isinstance(self, DynamicComponent)" in t
+        if not by_name and not by_class:
+            chk.undecided("S9", "component:render:is_dynamic_component-source", m.loc(v), f"source `{t}` not recognised")
+        else:
+            chk.ob("S9", "component:render:is_dynamic_component-source", m.loc(v), by_class and not by_name,
+                   f"`{t}`: a class marker" if by_class and not by_name else
+                   f"`{t}` decides by the registered name: the target created by the dynamic component carries the same registered name, is taken for the dynamic component itself, and its `required` slot without a fill silently renders the default instead of raising")
+    sm = proj.mod("slots")
+    ef = sm.func("_escape_slot_name")
+    rx = [c for c in calls(ef) if isinstance(c.func, ast.Attribute) and c.func.attr == "sub" and isinstance(c.func.value, ast.Name)]
+    if len(rx) != 1:
+        chk.undecided("S9", "slots:_escape_slot_name:keeps-identifier-characters", sm.loc(ef), "escape regex not identified")
+        return
+    from ..regexlang import ALPHABET, Lang
+    from .markers import compiled_regex
+
+    pat, fl, node = compiled_regex(proj, "slots", rx[0].func.value.id)
+    lang = Lang(pat, fl)
+    hit = []
+    for ch in sorted(ALPHABET):
+        if (ch == "_" or ch.isalnum()) and lang.accepting(lang.step(lang.initial(), ch)):
+            hit.append(ch)
+    chk.ob("S9", "slots:_escape_slot_name:keeps-identifier-characters", sm.loc(node), not hit,
+           "the escape pattern matches no letter, digit or underscore (Unicode included)" if not hit else
+           f"the escape pattern replaces {hit[:4]!r}: a slot called 'názov' is stored in is_filled under 'n_zov', so `component_vars.is_filled.názov` is False although the fill was provided")
 
 
 def s6(chk: Check, proj: Project, w) -> None:
